@@ -6,6 +6,7 @@ the bare transformer chains and labels every mismatch with the property it break
 import json
 import os
 import random
+import subprocess
 import re
 import time
 
@@ -77,8 +78,15 @@ def run_check(pid, tier, replay=None):
         vh = C.build_harness(scratch)
         if replay:
             obj = json.load(open(replay))
-            res, crashes = run_cases(vh, scratch, [obj["case"]], workers=1, subcmd="sources")
-            bad = crashes or [m for r in res for m in (r.get("mismatches") or []) if m["prop"] == pid]
+            if obj.get("kind") == "caseconv":
+                cf, rf = scratch.path("ident-cases"), scratch.path("ident-results")
+                open(cf, "w").write(json.dumps(obj["case"]) + "\n")
+                p = subprocess.run([vh, "caseconv", cf, rf], capture_output=True, text=True, timeout=600)
+                bad = p.returncode != 0 or [1 for line in open(rf) if json.loads(line).get("mismatches")]
+                res, crashes = [], []
+            else:
+                res, crashes = run_cases(vh, scratch, [obj["case"]], workers=1, subcmd="sources")
+                bad = crashes or [m for r in res for m in (r.get("mismatches") or []) if m["prop"] == pid]
             print("replay:", "reproduced" if bad else "not reproduced", (bad or [])[:1])
             if bad:
                 print("VIOLATION property=%s replay=%s  (reproduced)" % (pid, replay))
@@ -162,10 +170,36 @@ def run_check(pid, tier, replay=None):
                 g["id"] = "g%d" % len(extra)
                 extra.append(g)
             todo += extra
+        ident_viol, ident_n = [], 0
+        if pid == "C16":
+            # identifiers to case-convert: every text of up to 4 (quick) / 5 (thorough) characters over an alphabet of the character
+            # classes the decoders distinguish, through every decoder and, when accepted, every encoder
+            import itertools
+            alpha = ["a", "B", "1", "_", "-", " ", "\u00e9"] if quick else ["a", "b", "B", "Z", "1", "_", "-", " ", "\u00e9", "."]
+            texts = [""] + ["".join(t) for n in range(1, 5 if quick else 6) for t in itertools.product(alpha, repeat=n)]
+            texts += ["HTTP", "ID_", "_ID", "a__b", "A-", "--", "UTF8", "uTF8x", "JSONs", "IDs", "aID", "aIDs9"]
+            cf, rf = scratch.path("ident-cases"), scratch.path("ident-results")
+            with open(cf, "w") as f:
+                for i, t in enumerate(texts):
+                    f.write(json.dumps({"id": "i%d" % i, "kind": "total", "name": t}) + "\n")
+            p = subprocess.run([vh, "caseconv", cf, rf], capture_output=True, text=True, timeout=1500)
+            if p.returncode != 0:
+                first = next((l for l in p.stderr.splitlines() if l.startswith(("panic:", "fatal error:"))), p.stderr[:200])
+                ident_viol.append(("case conversion driver died: %s" % first, {"stderr": p.stderr[-1500:]}))
+            else:
+                for line in open(rf):
+                    r = json.loads(line)
+                    if r.get("final"):
+                        ident_n = r["cases"]
+                    elif r.get("mismatches"):
+                        ident_viol.append((r["mismatches"][0]["detail"][:220], {"id": r["id"], "kind": "total", "name": texts[int(r["id"][1:])]}))
         results, crashes = run_cases(vh, scratch, todo, workers=12, subcmd="sources")
         byid = {c["id"]: c for c in todo}
         known = C.load_known()["findings"]
         violations, known_hits, other = [], set(), {}
+        for what, case in ident_viol[:10]:
+            rp = C.write_replay(pid, "ident-%d" % len(violations), {"property": pid, "kind": "caseconv", "case": case})
+            violations.append((what, rp))
         for cid, first, stderr in crashes:
             if pid == "C16":
                 rp = C.write_replay(pid, cid, {"property": pid, "kind": "sources", "case": byid.get(cid), "crash": stderr[-2000:]})
@@ -197,7 +231,7 @@ def run_check(pid, tier, replay=None):
                     "embedded structs) + which leaves are supplied and under which name; each case run through env, flag, pflag, the four "
                     "decoders wrapped as ez wraps them, and the bare transformer chains; non-trivial = at least two leaves and at least one "
                     "supplied; distinct by content" % ", ".join(ALL_KINDS),
-            "model_runs": runs, "mismatches_by_property": other, "crashes": len(crashes),
+            "model_runs": runs, "mismatches_by_property": other, "crashes": len(crashes), "identifier_texts_swept": ident_n,
             "checker_cmd": "tlc MCSources (exhaustive small universe) ; tlc -simulate MCSources ; vh sources cases results",
         }
         level = "exploration" if pid == "C16" else "model_checking"
